@@ -618,11 +618,23 @@ func c11Ufs(ctx *core.Ctx, dotu bool) core.Result {
 					return res
 				}
 				if i >= 4 {
-					v.Rpc(&wire.Msg{Type: wire.Tread, Tag: 90, Fid: uint32(10 + i), Offset: 0, Count: 2000}, W)
+					// a directory is listed, and listed again from the start a few times (every listing from offset 0
+					// takes a fresh look at the directory)
+					for again := 0; again < 1+nopen%3; again++ {
+						off := uint64(0)
+						for k := 0; k < 1+again; k++ {
+							rp, err := v.Rpc(&wire.Msg{Type: wire.Tread, Tag: 90, Fid: uint32(10 + i), Offset: off, Count: 2000}, W)
+							if err != nil || rp.Msg == nil || rp.Msg.Type != wire.Rread || len(rp.Msg.Data) == 0 {
+								break
+							}
+							off += uint64(len(rp.Msg.Data))
+						}
+					}
 				}
 			}
 			if nopen > 0 {
-				if got := len(fdsUnder(root)) - len(baseFds); got != nopen {
+				// (more descriptors than open fids are not judged here: what matters is what is left after the disconnect)
+				if got := len(fdsUnder(root)) - len(baseFds); got < nopen {
 					res.Inconclusive = fmt.Sprintf("c11ufs: expected %d descriptors for the victim, see %d", nopen, got)
 					return res
 				}
